@@ -198,6 +198,15 @@ class P:
                 self.expect(";")
                 stmts.append(("let", pat, e))
                 continue
+            if self.peek()[1] in ("if", "match", "for") and self.peek()[0] == "id":
+                # an expression statement that starts with `if` / `match` / `for` ends at its closing brace
+                e = self.primary(False)
+                if self.at("}"):
+                    tail = e
+                else:
+                    self.eat(";")
+                    stmts.append(("expr", e))
+                continue
             e = self.expr()
             if self.eat(";"):
                 stmts.append(("expr", e))
@@ -232,6 +241,9 @@ class P:
                 continue
             if k == "op" and v == ".." and minp == 0:
                 self.next()
+                if self.at("]") or self.at(")"):            # `a..`: open-ended range
+                    lhs = ("range", lhs, None)
+                    continue
                 rhs = self.expr(nostruct, 1)
                 lhs = ("range", lhs, rhs)
                 continue
